@@ -306,6 +306,10 @@ class StrLang:
                             raise Unsupported("partition target")
                         views[t.id] = (kind, d, parent)
                     continue
+                cf = self._charflags(v, views)
+                if cf is not None and isinstance(tgt, ast.Name):
+                    views[tgt.id] = cf  # flags = [c.isspace() for c in s]  /  list(map(str.isspace, s))
+                    continue
                 sp = self._split1(v, views)
                 if sp is not None and isinstance(tgt, ast.Name):
                     views[tgt.id] = sp  # pieces = s.split(d, 1)
@@ -480,6 +484,31 @@ class StrLang:
         if w is not None:
             raise Raises(f"{what} (e.g. for {self.alpha.word(w)!r}): the validator would raise instead of answering", bad)
 
+    _CHAR_PREDICATES = {"isspace": "space"}
+
+    def _charflags(self, v, views):
+        """A materialised list of per-character flags: ('charflags', classes for which the flag is true, view)."""
+        from .relang import category_intervals
+
+        def classes(pred):
+            cat = self._CHAR_PREDICATES.get(pred)
+            return self.alpha.classes_of_intervals(category_intervals(cat)) if cat else None
+
+        inner = v
+        if isinstance(v, ast.Call) and isinstance(v.func, ast.Name) and v.func.id in ("list", "tuple") and len(v.args) == 1:
+            inner = v.args[0]
+            if isinstance(inner, ast.Call) and isinstance(inner.func, ast.Name) and inner.func.id == "map" and len(inner.args) == 2 and isinstance(inner.args[0], ast.Attribute) and isinstance(inner.args[0].value, ast.Name) and inner.args[0].value.id == "str" and isinstance(inner.args[1], ast.Name) and inner.args[1].id in views:
+                cls = classes(inner.args[0].attr)
+                if cls is not None:
+                    return ("charflags", cls, views[inner.args[1].id])
+        if isinstance(inner, (ast.ListComp,)) or (inner is not v and isinstance(inner, ast.GeneratorExp)):
+            g = inner.generators
+            if len(g) == 1 and not g[0].ifs and isinstance(g[0].target, ast.Name) and isinstance(g[0].iter, ast.Name) and g[0].iter.id in views and isinstance(inner.elt, ast.Call) and isinstance(inner.elt.func, ast.Attribute) and isinstance(inner.elt.func.value, ast.Name) and inner.elt.func.value.id == g[0].target.id and not inner.elt.args:
+                cls = classes(inner.elt.func.attr)
+                if cls is not None:
+                    return ("charflags", cls, views[g[0].iter.id])
+        return None
+
     def _pos_of(self, e, views):
         """A position expression: ('idx', d, view, name) = s.find(d); ('idxafter', ..) = s.find(d) + len(d); ('posconst', k)."""
         if isinstance(e, ast.Constant) and isinstance(e.value, int) and not isinstance(e.value, bool):
@@ -530,7 +559,7 @@ class StrLang:
                 raise Unsupported(f"str.{e.func.attr}() view without a fold-uniform alphabet")
             return ("fold", e.func.attr, self._view_of(e.func.value, views))
         if isinstance(e, ast.Name) and e.id in views:
-            if views[e.id][0] in ("truth", "idx", "idxafter", "posconst"):
+            if views[e.id][0] in ("truth", "idx", "idxafter", "posconst", "charflags"):
                 raise Unsupported(f"`{e.id}` is not a string")
             return views[e.id]
         if isinstance(e, ast.Subscript) and isinstance(e.slice, ast.Slice) and isinstance(e.value, ast.Name) and e.value.id in views and e.slice.step is None:
@@ -653,6 +682,11 @@ class StrLang:
                             sarg = False
                     if sarg not in (None, False):
                         return self.lift(self.lang_true(f.id, tuple(consts)), self._view_of(sarg, views))
+            if isinstance(f, ast.Name) and f.id in ("any", "all") and len(e.args) == 1 and isinstance(e.args[0], ast.Name) and e.args[0].id in views and views[e.args[0].id][0] == "charflags":
+                _, cls, base = views[e.args[0].id]
+                if f.id == "all":
+                    return self.lift(L.star(cls), base)  # every character has the property (true for '')
+                return self.lift(L.concat(L.SIGMA_STAR, L.sym(cls), L.SIGMA_STAR), base)
             if isinstance(f, ast.Name) and f.id in ("any", "all") and len(e.args) == 1 and isinstance(e.args[0], (ast.GeneratorExp, ast.ListComp)):
                 g = e.args[0]
                 if len(g.generators) == 1 and not g.generators[0].ifs and isinstance(g.generators[0].target, ast.Name):
